@@ -9,6 +9,7 @@ See the :mod:`~neuroglancer_scripts.accessor` module for a description of the
 API.
 """
 
+import errno
 import gzip
 import os
 import pathlib
@@ -103,16 +104,33 @@ class FileAccessor(neuroglancer_scripts.accessor.Accessor):
         try:
             os.makedirs(str(file_path.parent), exist_ok=True)
             if self.gzip and mime_type not in NO_COMPRESS_MIME_TYPES:
+                self._drop_other_form(file_path, overwrite)
                 with gzip.open(
                         str(file_path.with_name(file_path.name + ".gz")),
                         mode, compresslevel=self.compresslevel) as f:
                     f.write(buf)
             else:
+                self._drop_other_form(
+                    file_path.with_name(file_path.name + ".gz"), overwrite)
                 with file_path.open(mode) as f:
                     f.write(buf)
         except OSError as exc:
             raise DataAccessError(f"Error storing {file_path}: {exc}"
                                   ) from exc
+
+    @staticmethod
+    def _drop_other_form(other_path, overwrite):
+        """Handle a previous copy stored in the other form (plain / .gz).
+
+        A name can be stored as a plain file or as a gzip-compressed file,
+        depending on its MIME type. The form that is not being written must
+        not survive, otherwise readers could return the outdated copy.
+        """
+        if other_path.is_file():
+            if not overwrite:
+                raise FileExistsError(errno.EEXIST, os.strerror(errno.EEXIST),
+                                      str(other_path))
+            other_path.unlink()
 
     def fetch_chunk(self, key, chunk_coords):
         f = None
@@ -148,11 +166,14 @@ class FileAccessor(neuroglancer_scripts.accessor.Accessor):
         try:
             os.makedirs(str(chunk_path.parent), exist_ok=True)
             if self.gzip and mime_type not in NO_COMPRESS_MIME_TYPES:
+                self._drop_other_form(chunk_path, overwrite)
                 with gzip.open(
                         str(chunk_path.with_name(chunk_path.name + ".gz")),
                         mode, compresslevel=self.compresslevel) as f:
                     f.write(buf)
             else:
+                self._drop_other_form(
+                    chunk_path.with_name(chunk_path.name + ".gz"), overwrite)
                 with chunk_path.open(mode) as f:
                     f.write(buf)
         except OSError as exc:
